@@ -852,6 +852,96 @@ fn exclude_family(only: Option<u64>, thin: u64) {
     println!("{{\"family\":\"exclude\",\"fn\":\"extract\",\"cases\":{},\"universe\":{},\"failures\":{},\"failed_cases\":{:?},\"first\":{}}}", evaluated, cases, failed.len(), failed, first.unwrap_or("null".into()));
 }
 
+// C07 at source level: indexed access `T[K]` on object and tuple types through the real frontend; the type handed to code
+// generation for the result is read with the independent evaluator `rt_eval` and compared, value by value, with the
+// union of the types TypeScript selects (a declared property, else the index signature; a prefix position, else the
+// rest type). Programs TypeScript rejects (a key that selects nothing) are not asked.
+fn idx_family(only: Option<u64>) {
+    let b = |t: CT| Box::new(t);
+    let defs: Vec<(&'static str, CT)> = vec![];
+    let mut values = cv_values(1);
+    for extra_v in [CV::Num(2), CV::Str("b")] { if !values.contains(&extra_v) { values.push(extra_v); } }
+    // (type text, key text, expected type)
+    let mut qs: Vec<(String, String, CT)> = vec![];
+    let names = ["a", "b", "c"];
+    let decl = |k: &str| if k == "a" { CT::Str } else { CT::Num };
+    let sig_ty = CT::Or(vec![CT::Str, CT::Num, CT::Null]);
+    for dm in 0..4u8 { for with_sig in [false, true] {
+        let declared: Vec<&'static str> = (0..2).filter(|i| (dm >> i) & 1 == 1).map(|i| names[i]).collect();
+        if declared.is_empty() && !with_sig { continue; }
+        let mut parts: Vec<String> = declared.iter().map(|k| format!("{}: {}", k, ct_ts(&decl(k)))).collect();
+        if with_sig { parts.push(format!("[k: string]: {}", ct_ts(&sig_ty))); }
+        let tt = format!("{{ {} }}", parts.join(", "));
+        for km in 1..8u8 {
+            let ks: Vec<&'static str> = (0..3).filter(|i| (km >> i) & 1 == 1).map(|i| names[i]).collect();
+            if !with_sig && ks.iter().any(|k| !declared.contains(k)) { continue; }
+            let mut sel: Vec<CT> = vec![];
+            for k in &ks { if declared.contains(k) { sel.push(decl(k)); } else { sel.push(sig_ty.clone()); } }
+            qs.push((tt.clone(), ks.iter().map(|k| format!("\"{}\"", k)).collect::<Vec<_>>().join(" | "), CT::Or(sel)));
+        }
+        if with_sig {
+            let mut sel: Vec<CT> = declared.iter().map(|k| decl(k)).collect();
+            sel.push(sig_ty.clone());
+            qs.push((tt.clone(), "string".into(), CT::Or(sel)));
+        }
+    } }
+    qs.push(("Record<string, number>".into(), "\"a\"".into(), CT::Num));
+    qs.push(("Record<string, number>".into(), "\"a\" | \"b\"".into(), CT::Num));
+    qs.push(("Record<string, number>".into(), "string".into(), CT::Num));
+    qs.push(("Record<\"a\" | \"b\", number>".into(), "\"a\"".into(), CT::Num));
+    let prefixes: Vec<Vec<CT>> = vec![vec![], vec![CT::Str], vec![CT::Str, CT::Num], vec![CT::Num, CT::Null]];
+    for pre in &prefixes { for rest in [None, Some(CT::Num), Some(CT::Str)] {
+        if pre.is_empty() && rest.is_none() { continue; }
+        let tt = ct_ts(&CT::Tup(pre.clone(), rest.clone().map(b)));
+        for km in 1..8u8 {
+            let ks: Vec<usize> = (0..3).filter(|i| (km >> i) & 1 == 1).collect();
+            if rest.is_none() && ks.iter().any(|k| *k >= pre.len()) { continue; }
+            let sel: Vec<CT> = ks.iter().map(|k| if *k < pre.len() { pre[*k].clone() } else { rest.clone().unwrap() }).collect();
+            qs.push((tt.clone(), ks.iter().map(|k| format!("{}", k)).collect::<Vec<_>>().join(" | "), CT::Or(sel)));
+        }
+        let mut sel: Vec<CT> = pre.clone();
+        if let Some(r) = &rest { sel.push(r.clone()); }
+        qs.push((tt.clone(), "number".into(), CT::Or(sel)));
+    } }
+    let (mut cases, mut skipped) = (0u64, 0u64);
+    let mut failed: Vec<u64> = vec![];
+    let mut first: Option<String> = None;
+    std::panic::set_hook(Box::new(|_| {}));
+    for (tt, key, expect) in &qs {
+        cases += 1;
+        if let Some(o) = only { if o != cases { continue; } }
+        let src = format!("type T = {};\ntype X = T[{}];\nparse.buildParsers<{{ X: X }}>();\n", tt, key);
+        let res = std::panic::catch_unwind(|| {
+            GLOBALS.set(&Globals::new(), || {
+                let f = BffFileName::new("entry.ts".into());
+                let m = parse_and_bind(&mut Res {}, &f, &src).ok()?;
+                let mut fs = BTreeMap::new();
+                fs.insert(f, m);
+                let mut man = Fm { fs };
+                let p = beff_core::extract(&mut man, EntryPoints { parser_entry_point: BffFileName::new("entry.ts".into()),
+                    settings: BeffUserSettings { string_formats: BTreeSet::new(), number_formats: BTreeSet::new() } });
+                if !p.errors.is_empty() { return None; }
+                Some(p.validators)
+            })
+        });
+        let vals = match res { Ok(Some(v)) => v, Ok(None) => { skipped += 1; continue; } Err(_) => { failed.push(cases); if first.is_none() { first = Some(format!("{{\"case\":{},\"input\":{:?},\"observed\":\"the compiler PANICS\",\"required\":\"a type\"}}", cases, src)); } continue; } };
+        let Some(x) = vals.iter().find(|s| match &s.name.ty { beff_core::RuntypeName::Address(a) => a.name == "X", _ => false }) else { skipped += 1; continue };
+        let mut bad: Option<String> = None;
+        for v in &values {
+            let want = ct_member(expect, v, &defs);
+            let Some(got) = rt_eval(&x.schema, v, &vals, 64) else { continue };
+            if want != got { bad = Some(format!("the value {} {} in the selected member types but {} in the type handed to code generation", cv_ts(v), if want { "is" } else { "is not" }, if got { "is" } else { "is not" })); break; }
+        }
+        if let Some(obs) = bad {
+            failed.push(cases);
+            if std::env::var("TWIN_ALL").is_ok() { eprintln!("FAIL case {} | ({})[{}] | {}", cases, tt, key, obs); }
+            if first.is_none() { first = Some(format!("{{\"case\":{},\"input\":{:?},\"observed\":{:?},\"required\":{:?}}}", cases, src, obs, format!("exactly the values of {}", ct_ts(expect)))); }
+        }
+    }
+    if skipped > 0 { eprintln!("idx: {} programs answered with a diagnostic or without a definition of X (skipped)", skipped); }
+    println!("{{\"family\":\"idx\",\"fn\":\"extract\",\"cases\":{},\"failures\":{},\"failed_cases\":{:?},\"first\":{}}}", cases, failed.len(), failed, first.unwrap_or("null".into()));
+}
+
 fn main() {
     let args: Vec<String> = std::env::args().collect();
     let mut depth = 1usize;
@@ -864,6 +954,7 @@ fn main() {
     let mut condlist: Option<u64> = None;
     let mut condobj: Option<u64> = None;
     let mut exclude: Option<u64> = None;
+    let mut idx = false;
     let mut i = 1;
     while i < args.len() {
         match args[i].as_str() {
@@ -877,10 +968,12 @@ fn main() {
             "--condlist" => { condlist = Some(args[i + 1].parse().unwrap()); i += 2; }
             "--condobj" => { condobj = Some(args[i + 1].parse().unwrap()); i += 2; }
             "--exclude" => { exclude = Some(args[i + 1].parse().unwrap()); i += 2; }
+            "--idx" => { idx = true; i += 1; }
             _ => i += 1,
         }
     }
     if cond { cond_family(only); return; }
+    if idx { idx_family(only); return; }
     if let Some(thin) = condlist { condlist_family(only, thin); return; }
     if let Some(thin) = condobj { condobj_family(only, thin); return; }
     if let Some(thin) = exclude { exclude_family(only, thin); return; }
